@@ -11,7 +11,7 @@ RULE = ('DesignVariableNode.correct_value and DSG.set_des_var_value/des_var_valu
         'checked with the model\'s in_dom; non-trivial = value outside the domain or a linked group; distinct = distinct case')
 TRUSTED = ['C16: floats are compared as exact rationals; the linked relative-position formula is compared with = only on '
            'dyadic inputs where double arithmetic is exact, otherwise only membership in the domain is decided by the model']
-PARTIAL = ['present-iff-value clause of decoded architectures is checked with the decode properties (C01/C07 machinery)']
+PARTIAL = []
 
 
 def q(x):
@@ -45,7 +45,7 @@ def _rand_val(rng, d):
                        lo - 1e9, hi + 1e9, lo + (hi - lo) * rng.choice([0.25, 0.5, 0.75, 1.0, 0.0])])
 
 
-def batches(tier, seed):
+def _node_batches(tier, seed):
     rng = rng_for(seed, 'C16')
     n = 600 if tier == 'quick' else 8000
     cases = []
@@ -80,7 +80,7 @@ def _node(d, name):
     return DesignVariableNode(name, bounds=(d[1], d[2]))
 
 
-def run_case(case):
+def _node_run_case(case):
     if case['kind'] == 'correct':
         d = case['dom']
         node = _node(d, 'dv')
@@ -124,7 +124,7 @@ def _feq(a, b):
     return Fraction(int(a[0]), int(a[1])) == Fraction(int(b[0]), int(b[1]))
 
 
-def compare(case, r, ms):
+def _node_compare(case, r, ms):
     if case['kind'] == 'correct':
         if not _feq(ms[0], r['impl']):
             return {'clause': 'correct-value-differs', 'detail': 'impl %s model %s' % (r['impl'], ms[0])}
@@ -148,4 +148,49 @@ def compare(case, r, ms):
             scale = max(1, abs(a), abs(b))
             if abs(a - b) > scale * Fraction(1, 10 ** 9):
                 return {'clause': 'stored-value-differs', 'detail': 'node %d impl %s model %s (inexact arithmetic, tolerance 1e-9)' % (k, float(a), float(b))}
+    return None
+
+
+# ---------------------------------------------------------------- decoded architectures
+# second batch: graphs with 1-3 design-variable nodes (permanent and conditional, discrete and continuous) decoded through
+# GraphProcessor with both encoders, vectors with values inside, on and far outside the bounds, negative and non-integer
+# indices: every design-variable node of the instance carries a value of its domain (an integer index for a discrete one),
+# nodes that are not in the instance carry none, and the values are those of the corrected vector (decode_witness)
+from props import _proc as _p
+import dsgcase as _dsgcase
+PROC_CLAUSES = {'decode-result-is-not-an-admissible-architecture', 'corrected-vector-out-of-range',
+                'corrected-vector-does-not-describe-the-instance'}
+RULE += ('; second batch: G-sel graphs with 1-3 design-variable nodes x both encoders x vectors incl. out-of-range, negative and '
+         'non-integer entries: decode_witness (proved sound) must accept the instance with the values stored on its '
+         'design-variable nodes')
+_proc_batches = _p.make_batches('C16', ['complete', 'fast'], 400, 4000, cons_prob=0.1, n_dv=(1, 3), out_of_range=True)
+_proc_run = _p.make_run_case(PROC_CLAUSES)
+
+
+def batches(tier, seed):
+    for b_ in _node_batches(tier, seed):
+        yield b_
+    for name, cases in _proc_batches(tier, seed):
+        for c in cases:
+            c['_procbatch'] = True
+        yield 'decoded-architectures', cases
+
+
+def run_case(case):
+    return _proc_run(case) if case.get('_procbatch') else _node_run_case(case)
+
+
+def compare(case, r, ms):
+    return _p.compare(case, r, ms) if case.get('_procbatch') else _node_compare(case, r, ms)
+
+
+def shrink_candidates(case):
+    if case.get('_procbatch'):
+        for c in _p.shrink_candidates(case):
+            yield c
+
+
+def match_known(case, fail, known):
+    if case.get('_procbatch'):
+        return _dsgcase.match_known(case, fail, known)
     return None
